@@ -6,7 +6,8 @@ package main
 // into a third.  Every backup is restored and projected; one trace line per backup is validated
 // by TraceBackup.tla against the write history (phase C).  Phase B cuts the inter-node backup
 // stream at chosen byte positions (FIN / RST) and records what the HTTP client of the follower
-// saw.  Phase P (backup_pfail.go) makes the producing node fail after streaming has begun.
+// saw.  Phase P (backup_pfail.go) makes the producing node fail after streaming has begun.  Phase S
+// (backup_ident.go) repeats the workload's tables under table / column names of every identifier shape.
 
 import (
 	"bytes"
@@ -78,15 +79,29 @@ func bkOne(d *db.DB, q string) ([]int64, error) {
 	return out, nil
 }
 
-func bkProject(d *db.DB) bkProj {
+// bkNames are the identifiers of the three workload tables and their columns (phase S varies their shape).
+type bkNames struct {
+	A, M, Z             string // tables
+	ID, V, K, W, D, Pad string // columns: A(ID, V), Z(ID, V), M(K, W, D, Pad)
+	Idx                 string // index on M(K)
+}
+
+var bkDefaultNames = bkNames{A: "t_a", M: "t_m", Z: "t_z", ID: "id", V: "v", K: "k", W: "w", D: "d", Pad: "pad", Idx: "t_m_k"}
+
+// qi quotes an identifier for SQL text.
+func qi(name string) string { return `"` + strings.ReplaceAll(name, `"`, `""`) + `"` }
+
+func bkProject(d *db.DB) bkProj { return bkProjectNames(d, bkDefaultNames) }
+
+func bkProjectNames(d *db.DB, nm bkNames) bkProj {
 	p := bkProj{NA: -1, NZ: -1, NM: -1}
-	if v, err := bkOne(d, "SELECT count(*), COALESCE(sum(v),0) FROM t_a"); err == nil {
+	if v, err := bkOne(d, fmt.Sprintf("SELECT count(*), COALESCE(sum(%s),0) FROM %s", qi(nm.V), qi(nm.A))); err == nil {
 		p.NA, p.SA = v[0], v[1]
 	}
-	if v, err := bkOne(d, "SELECT count(*), COALESCE(sum(v),0) FROM t_z"); err == nil {
+	if v, err := bkOne(d, fmt.Sprintf("SELECT count(*), COALESCE(sum(%s),0) FROM %s", qi(nm.V), qi(nm.Z))); err == nil {
 		p.NZ, p.SZ = v[0], v[1]
 	}
-	if v, err := bkOne(d, "SELECT count(*), COALESCE(sum(k),0), COALESCE(sum(d),0) FROM t_m"); err == nil {
+	if v, err := bkOne(d, fmt.Sprintf("SELECT count(*), COALESCE(sum(%s),0), COALESCE(sum(%s),0) FROM %s", qi(nm.K), qi(nm.D), qi(nm.M))); err == nil {
 		p.NM, p.SK, p.SD = v[0], v[1], v[2]
 	}
 	if v, err := bkOne(d, "SELECT count(*) FROM sqlite_master WHERE name NOT LIKE 'sqlite_%'"); err == nil {
@@ -114,6 +129,11 @@ func gunzipAll(b []byte) ([]byte, error) {
 
 // bkRestore turns the body of a backup response into a database and projects it.
 func bkRestore(dir string, body []byte, format string, compress bool) (bkProj, error) {
+	return bkRestoreNames(dir, body, format, compress, bkDefaultNames)
+}
+
+func bkRestoreNames(dir string, body []byte, format string, compress bool, nm bkNames) (bkProj, error) {
+	bkProject := func(d *db.DB) bkProj { return bkProjectNames(d, nm) }
 	none := bkProj{NA: -1, NZ: -1, NM: -1}
 	if compress {
 		var err error
@@ -254,11 +274,13 @@ type bkWrite struct {
 	Rowid        int64
 }
 
-func bkDoWrite(n *vNode, wr *bkWrite, pad string) {
+func bkDoWrite(n *vNode, wr *bkWrite, pad string) { bkDoWriteNames(n, wr, pad, bkDefaultNames) }
+
+func bkDoWriteNames(n *vNode, wr *bkWrite, pad string, nm bkNames) {
 	body := []string{
-		fmt.Sprintf("UPDATE t_a SET v=v-%d WHERE id=%d", wr.D, wr.X),
-		fmt.Sprintf("UPDATE t_z SET v=v+%d WHERE id=%d", wr.D, wr.Y),
-		fmt.Sprintf("INSERT INTO t_m(k,w,d,pad) VALUES(%d,%d,%d,'%s')", wr.K, wr.W, wr.D, pad),
+		fmt.Sprintf("UPDATE %s SET %s=%s-%d WHERE %s=%d", qi(nm.A), qi(nm.V), qi(nm.V), wr.D, qi(nm.ID), wr.X),
+		fmt.Sprintf("UPDATE %s SET %s=%s+%d WHERE %s=%d", qi(nm.Z), qi(nm.V), qi(nm.V), wr.D, qi(nm.ID), wr.Y),
+		fmt.Sprintf("INSERT INTO %s(%s,%s,%s,%s) VALUES(%d,%d,%d,'%s')", qi(nm.M), qi(nm.K), qi(nm.W), qi(nm.D), qi(nm.Pad), wr.K, wr.W, wr.D, pad),
 	}
 	resp, err := n.httpSQL("execute", "transaction&raft_index&timeout=20s", body)
 	if err != nil {
@@ -336,6 +358,10 @@ type bkStats struct {
 	PFCases, PFFired, PFNotFired     int            // phase P: producer-failure cases
 	PFOutcomes                       map[string]int // format/compress/via/at/outcome
 	ElapsedP                         float64
+	IdentShapes                      int // phase S: (table shape, column shape) pairs
+	IdentBackups, IdentBackupsOK     int
+	IdentOutcomes                    map[string]int // ident/fmt/outcome
+	ElapsedS                         float64
 	BadKept                          atomic.Int32 `json:"-"` // bodies + hook events kept of backups that did not restore
 }
 
@@ -351,6 +377,7 @@ func backupTrace(args []string) error {
 	secs := fs.Int("secs", 0, "phase C: keep starting rounds until this many seconds have passed (at least 2 rounds, at most -rounds)")
 	fwdTimeout := fs.String("fwdtimeout", "", "timeout= parameter of forwarded backups")
 	pfail := fs.Bool("pfail", true, "phase P: the producing node fails after streaming began (fault points backup.copy, dump.table)")
+	ident := fs.String("ident", "star", "phase S: identifier shapes of table and column names: star (each shape against plain, and both alike) | full (every pair, every format/flag/via) | off")
 	fs.Parse(args)
 	if *base == "" {
 		*base, _ = os.MkdirTemp("", "vbk")
@@ -360,7 +387,7 @@ func backupTrace(args []string) error {
 	if err != nil {
 		return err
 	}
-	st := &bkStats{ByVia: map[string]int{}, CutOutcomes: map[string]int{}, StreamBytes: map[string]int64{}, PFOutcomes: map[string]int{}}
+	st := &bkStats{ByVia: map[string]int{}, CutOutcomes: map[string]int{}, StreamBytes: map[string]int64{}, PFOutcomes: map[string]int{}, IdentOutcomes: map[string]int{}}
 	rng := newRand(21)
 	os.RemoveAll(filepath.Join(*base, "cl")) // a repeated run starts from nothing
 	c, err := newCluster(vClusterOpts{N: 3, Base: filepath.Join(*base, "cl"), Configure: func(s *store.Store) {
@@ -417,6 +444,19 @@ func backupTrace(args []string) error {
 			return fmt.Errorf("phase P: %w", err)
 		}
 		st.ElapsedP = time.Since(tp).Seconds()
+	}
+
+	// ------------------------------------------------------------ phase S: identifier shapes
+	if *ident != "off" {
+		ts := time.Now()
+		idx, err := bkPhaseS(c, w, st, restoreDir, *fwdTimeout, *ident == "full")
+		if err != nil {
+			return fmt.Errorf("phase S: %w", err)
+		}
+		if idx > initIdx {
+			initIdx = idx
+		}
+		st.ElapsedS = time.Since(ts).Seconds()
 	}
 
 	// ------------------------------------------------------------ phase C: backups under load
@@ -1017,5 +1057,5 @@ func bkPhaseB(c *vCluster, w *ndWriter, st *bkStats, rng *rand.Rand, ncuts int, 
 			return 0, fmt.Errorf("cleanup: %s", r.GetError())
 		}
 	}
-	return idx, c.WaitConverged(15 * time.Second)
+	return idx, bkWaitApplied(c, idx, 20*time.Second)
 }
